@@ -58,8 +58,8 @@ class G:
 
     # ---- unit complex numbers ----
     U2_STRATA = ["id", "half_turn", "quarter", "tiny", "near_pi", "generic", "neg_generic"]
-    def unit2(self, stratum=None):
-        s = stratum or self.r.choice(self.U2_STRATA)
+    def unit2(self, stratum=None, nopi=False):
+        s = stratum or self.r.choice([x for x in self.U2_STRATA if not (nopi and x == "half_turn")])
         self.note("unit2:" + s)
         if s == "id": return [Fr(1), Fr(0)]
         if s == "half_turn": return [Fr(-1), Fr(0)]
@@ -86,8 +86,8 @@ class G:
 
     # ---- unit quaternions [x,y,z,w] ----
     U4_STRATA = ["id", "neg_id", "w0", "tiny", "tiny_neg", "near_pi", "generic_pos", "generic_neg", "axis"]
-    def unit4(self, stratum=None):
-        s = stratum or self.r.choice(self.U4_STRATA)
+    def unit4(self, stratum=None, nopi=False):
+        s = stratum or self.r.choice([x for x in self.U4_STRATA if not (nopi and x == "w0")])
         self.note("unit4:" + s)
         if s == "id": return [Fr(0), Fr(0), Fr(0), Fr(1)]
         if s == "neg_id": return [Fr(0), Fr(0), Fr(0), Fr(-1)]
